@@ -296,6 +296,18 @@ func c14read(db *sql.DB) (c14model, error) {
 
 type c14panic struct{ n int }
 
+// c14canceller is a value of a bulk-insert row that ends the caller's context when the database
+// layer asks for it.
+type c14canceller struct {
+	cancel context.CancelFunc
+	v      int64
+}
+
+func (c c14canceller) Value() (driver.Value, error) {
+	c.cancel()
+	return c.v, nil
+}
+
 func c14Run(s *sim.Sim, p *sim.Params) {
 	var sample []string
 	defer func() {
@@ -338,7 +350,7 @@ func c14Run(s *sim.Sim, p *sim.Params) {
 	for i := range txns {
 		txns[i] = gen()
 	}
-	backendKind := s.Choose(sim.SWork, 5)
+	backendKind := s.Choose(sim.SWork, 6)
 	target := s.Choose(sim.SWork, ntx) // the transaction that receives the fault
 	kinds := []string{"none", "cb-error", "cb-error-lockwait", "cb-error-deadlock", "cb-error-canceled", "cb-error-deadline", "cb-error-wrapped", "cb-error-txdone", "cb-error-badconn", "cb-panic", "ctx-cancel", "deadline", "exec", "badconn", "begin", "commit-before", "commit-after", "rollback", "nested-deadline"}
 	if p.Tier != "thorough" {
@@ -353,6 +365,12 @@ func c14Run(s *sim.Sim, p *sim.Params) {
 	}
 	execs := 0
 	for _, kind := range kinds {
+		if backendKind == 5 {
+			switch kind {
+			case "exec", "badconn", "begin", "commit-before", "commit-after", "rollback":
+				continue // driver faults need the fault-injecting driver
+			}
+		}
 		npos := len(txns[target].stmts) + 1
 		switch kind {
 		case "none", "begin", "commit-before", "commit-after", "nested-deadline":
@@ -385,6 +403,28 @@ func c14open(s *sim.Sim, dir string, n int, backendKind int) *c14backend {
 	}
 	var b *c14backend
 	switch backendKind {
+	case 5:
+		// the public path: NewSQLiteDB + Connect with the real driver (so no driver faults here),
+		// over the ways a database location can be spelled — plain and parameterised in-memory
+		// names, a file path, a file URI with parameters of its own
+		dsns := []string{
+			":memory:",
+			"",
+			fmt.Sprintf("file:c14mem%d?mode=memory&cache=shared", n),
+			":memory:?cache=private",
+			filepath.Join(dir, fmt.Sprintf("pub%d.sqlite", n)),
+			"file:" + filepath.Join(dir, fmt.Sprintf("puburi%d.sqlite", n)) + "?_pragma=foreign_keys(1)",
+		}
+		dsn := dsns[n%len(dsns)]
+		x := NewSQLiteDB(&Config{Database: dsn, MaxOpenConns: c14poolSetting(s)})
+		cctx, ccancel := context.WithTimeout(context.Background(), 5*time.Second)
+		err := x.Connect(cctx)
+		ccancel()
+		if err != nil {
+			s.InfraFail("C14: Connect(" + dsn + "): " + err.Error())
+		}
+		s.Probe("sqlite-through-connect")
+		b = &c14backend{name: "sqlite-connect", txfn: x.Transaction, db: x.db, bulk: x.BulkInsert, ph: func(int) string { return "?" }}
 	case 0, 1:
 		// the public path: NewSQLiteDB + Connect (real driver, no driver faults) is used when no
 		// driver fault is armed; with driver faults the same struct is built over the wrapper
@@ -651,7 +691,7 @@ func c14execute(s *sim.Sim, dir string, n int, backendKind int, txns []c14txn, t
 
 // c14bulk: a multi-row bulk insert leaves all rows or none.
 func c14bulk(s *sim.Sim, dir string, backendKind int, sample *[]string) {
-	b := c14open(s, dir, 9000, backendKind)
+	b := c14open(s, dir, 9000+s.Choose(sim.SWork, 6), backendKind)
 	defer b.db.Close()
 	nrows := 1 + s.Choose(sim.SWork, 20)
 	if s.Choose(sim.SWork, 4) == 0 {
@@ -663,6 +703,14 @@ func c14bulk(s *sim.Sim, dir string, backendKind int, sample *[]string) {
 	dupAt := s.Choose(sim.SWork, nrows+1) // == nrows: no violating row
 	if nrows > 100 && s.Choose(sim.SWork, 2) == 0 {
 		dupAt = nrows - 1 - s.Choose(sim.SWork, 3) // late in the batch
+	}
+	giveUp := s.Choose(sim.SWork, 4) == 0 // the caller gives up while the batch is handed over (below)
+	if giveUp {
+		dupAt = nrows
+		if s.Choose(sim.SWork, 2) == 0 {
+			nrows = []int{501, 600, 1000}[s.Choose(sim.SWork, 3)]
+			dupAt = nrows
+		}
 	}
 	pre := s.Choose(sim.SWork, 2) == 1
 	if pre {
@@ -684,7 +732,7 @@ func c14bulk(s *sim.Sim, dir string, backendKind int, sample *[]string) {
 	// a row of the wrong width (one value short, or one too many) somewhere in the batch: the
 	// statement cannot be built for it, so nothing may be inserted
 	badWidth := -1
-	if dupAt == nrows && nrows > 1 && s.Choose(sim.SWork, 2) == 0 {
+	if !giveUp && dupAt == nrows && nrows > 1 && s.Choose(sim.SWork, 2) == 0 {
 		badWidth = s.Choose(sim.SWork, nrows)
 		if s.Choose(sim.SWork, 2) == 0 {
 			vals[badWidth] = vals[badWidth][:1]
@@ -695,11 +743,40 @@ func c14bulk(s *sim.Sim, dir string, backendKind int, sample *[]string) {
 	}
 	before, _ := c14read(b.db)
 	ctx, cancel := context.WithTimeout(context.Background(), 5*time.Second)
+	// the caller gives up while the batch is being handed over: one value of the batch is
+	// produced by a driver.Valuer that cancels the caller's context when it is asked for it
+	cancelAt := -1
+	if giveUp {
+		cancelAt = s.Choose(sim.SWork, nrows)
+		vals[cancelAt][1] = c14canceller{cancel: cancel, v: int64(cancelAt)}
+		s.Fault("caller-gives-up-mid-batch")
+	}
 	err := b.bulk(ctx, "t", []string{"k", "v"}, vals)
 	cancel()
 	got, rerr := c14read(b.db)
 	if rerr != nil {
 		s.Fail("oracle", "connection-unusable:"+b.name, "after BulkInsert: "+rerr.Error())
+	}
+	if cancelAt >= 0 {
+		// all rows or none, whatever BulkInsert reports; and the handle goes on working
+		if len(got) != len(before) && len(got) != len(before)+nrows {
+			s.Fail("oracle", "bulk-partial:"+b.name, fmt.Sprintf("BulkInsert of %d rows whose caller gave up at row %d returned %v and left %d of the rows in the table", nrows, cancelAt, err, len(got)-len(before)))
+		}
+		pctx, pcancel := context.WithTimeout(context.Background(), 5*time.Second)
+		perr := b.txfn(pctx, func(tx *sql.Tx) error {
+			_, e := tx.Exec("UPDATE t SET v = v WHERE 1 = 0")
+			return e
+		})
+		pcancel()
+		if perr != nil {
+			s.Fail("oracle", "connection-unusable:"+b.name, fmt.Sprintf("a transaction after a BulkInsert of %d rows whose caller gave up at row %d failed: %v", nrows, cancelAt, perr))
+		}
+		after2, _ := c14read(b.db)
+		if after2.String() != got.String() {
+			s.Fail("oracle", "bulk-partial:"+b.name, fmt.Sprintf("the table changed from %d to %d rows after the abandoned BulkInsert had returned", len(got), len(after2)))
+		}
+		*sample = append(*sample, fmt.Sprintf("%s BulkInsert %d rows, caller gives up at row %d -> err=%v rows=%d", b.name, nrows, cancelAt, err, len(got)))
+		return
 	}
 	if badWidth >= 0 && err == nil {
 		s.Fail("oracle", "bulk-partial:"+b.name, fmt.Sprintf("BulkInsert of %d rows of which row %d has %d values for 2 columns returned nil; the table went from %d to %d rows", nrows, badWidth, len(vals[badWidth]), len(before), len(got)))
